@@ -74,7 +74,8 @@ func autoDetectPacketSize(r io.Reader) (packetSize int, err error) {
 				return
 			} else if n == -1 {
 				var ls = packetSize - (l - packetSize)
-				if _, err = io.ReadFull(r, make([]byte, ls)); err != nil {
+				// A stream that ends in there ends with a truncated packet: it's reported as the end of the stream
+				if _, err = readFull(r, make([]byte, ls)); err != nil {
 					err = fmt.Errorf("astits: reading %d bytes to sync reader failed: %w", ls, err)
 					return
 				}
